@@ -1,7 +1,7 @@
 ----------------------------- MODULE MC_WasmAbi -----------------------------
 EXTENDS WasmAbi, Json
 MCStructDefs == [S2 |-> <<P("u8"), P("u16")>>, S3 |-> <<P("u32"), P("u8"), P("u16")>>, SW |-> <<P("u8"), P("i64")>>]
-FieldTypes == {P("u8"), P("i16"), P("u32"), P("i64"), P("f32"), P("f64"), P("bool"), P("char"), EnumT, K("opq"),
+FieldTypes == {P(p) : p \in Prims} \cup {EnumT, K("opq"),
                SliceT("u8", "imm"), StructT("S2"), StructT("S3"), StructT("SW"),
                OptT("dipl", P("u8")), OptT("dipl", P("u32")), OptT("dipl", StructT("S2"))}
 CONSTANT MaxFields
